@@ -1688,9 +1688,26 @@ def _time_shift_builtins(idx: Index, res: Result) -> None:
             pats.setdefault(n.targets[0].id, []).append(n.value.value)
     subs = [c for c in iter_calls(dl.node) if call_name(c) == "sub" and call_recv(c) == "re"]
     shift = [c for c in subs if any(isinstance(x, ast.Name) and x.id == "offset" for x in ast.walk(c.args[1]))]
-    if len(shift) != 1 or "pattern" not in pats:
+    # the pattern of the shifting substitution: a literal, or a local / module-level name bound to one
+    pattern = None
+    if len(shift) == 1 and shift[0].args:
+        p0 = shift[0].args[0]
+        if isinstance(p0, ast.Constant) and isinstance(p0.value, str):
+            pattern = p0.value
+        elif isinstance(p0, ast.Name) and p0.id in pats:
+            pattern = pats[p0.id][-1]
+        elif isinstance(p0, ast.Name):
+            # clean = re.compile(pattern)
+            for a_ in walk_no_nested(dl.node):
+                if isinstance(a_, ast.Assign) and isinstance(a_.targets[0], ast.Name) and a_.targets[0].id == p0.id and isinstance(a_.value, ast.Call) \
+                        and call_name(a_.value) == "compile" and a_.value.args:
+                    q0 = a_.value.args[0]
+                    if isinstance(q0, ast.Constant) and isinstance(q0.value, str):
+                        pattern = q0.value
+                    elif isinstance(q0, ast.Name) and q0.id in pats:
+                        pattern = pats[q0.id][-1]
+    if pattern is None:
         raise AnalysisError("delay(): time-shift rewrite not found")
-    pattern = pats["pattern"][-1]
 
     def build_repl(e: ast.AST, offset_text: str) -> str:
         if isinstance(e, ast.Constant):
